@@ -487,11 +487,22 @@ def is_item(e):
     return e[0] == 'proj' and e[1][0] == 'call' and e[1][1] == 'next' and 'Iterator' in e[1][2]
 
 
+OK_PRESERVING = re.compile(r'Result::<.*>::map_err$')          # besides templates.TRANSPARENT (context / with_context / clone / deref / `?` ..): the Ok payload is unchanged
+
+
+def _transparent_call(e):
+    if e[0] != 'call' or not e[3]: return False
+    tail = T.strip_generics_tail(e[2])
+    return bool(T.TRANSPARENT.search(tail) or OK_PRESERVING.search(tail))
+
+
 def peel(e):
-    """strip transparent wrappers (clone/into/deref/`?`/with_context/..., Ok/Some/Continue payloads) but keep loop items"""
+    """strip transparent wrappers (clone/into/deref/`?`/with_context/map_err/..., Ok/Some/Continue payloads) but keep loop items;
+    a projection of a transparent call is the projection of its argument"""
     while True:
         if e[0] == 'proj' and not is_item(e) and all(T.WRAPPER_OWNER.search(a) for a, f in e[2]): e = e[1]; continue
-        if e[0] == 'call' and T.TRANSPARENT.search(T.strip_generics_tail(e[2])) and e[3]: e = e[3][0]; continue
+        if _transparent_call(e): e = e[3][0]; continue
+        if e[0] == 'proj' and not is_item(e) and _transparent_call(e[1]): e = project(e[1][3][0], e[2]); continue
         return e
 
 
@@ -553,7 +564,7 @@ def product_factors(node, via=None, vx=None):
 DISCR = {'Ok': 0, 'Err': 1, 'None': 0, 'Some': 1, 'Continue': 0, 'Break': 1}
 
 
-def reach_v(body, starts, stop=()):
+def reach_v(body, starts, stop=(), cut=()):
     """forward reachability that knows which variant a Result/Option/ControlFlow local holds on the
     path (built by an aggregate, `from_residual`, anyhow::Ok, Try::branch of a known value; nested:
     Ok(None), Some(Ok(..))) and follows a switch on its discriminant only into the matching arm.
@@ -568,7 +579,7 @@ def reach_v(body, starts, stop=()):
         bi, env = work.pop()
         if (bi, env) in seen: continue
         seen.add((bi, env)); out.add(bi)
-        if len(seen) > 20000: return body.reach(starts, stop)
+        if len(seen) > 20000: return body.reach(starts, stop) if not cut else set(body.live)
         e = dict(env); blk = body.blocks[bi]
         for st in blk['st']:
             if 'dst' not in st: continue
@@ -605,7 +616,7 @@ def reach_v(body, starts, stop=()):
                 succs = [m.get(v[1], t['else'])]
         fe = frozenset(e.items())
         for s in succs:
-            if s not in stop and not body.blocks[s]['cleanup']: work.append((s, fe))
+            if s not in stop and (bi, s) not in cut and not body.blocks[s]['cleanup']: work.append((s, fe))
     return out
 
 
@@ -694,6 +705,54 @@ def errflow_v(body, local, depth=0, none_variant=0):
                 res += _wrapped_flow(body, x['dst']['l'], err_index(body, local, none_variant), depth + 1)
     if not res: res.append(('bad', 'no recognised consumer'))
     return res
+
+
+def failure_edges(body, local, depth=0):
+    """CFG edges (switch block, target) taken exactly when the fallible value in `local` is None / Err: the Break arm of its `?`, the None/Err arm
+    of a match / let-else on it - through the same adaptors, copies and wrappers that errflow_v accepts"""
+    out = set()
+    if depth > 8: return out
+    def switch_edges(dl, variant):
+        for k3, b3, sw in body.uses.get(dl, ()):
+            if k3 == 'switch':
+                m = {v: t for v, t in sw['ts']}
+                out.add((b3, m.get(variant, sw['else'])))
+    def wrapped(w, err_ix, d):
+        if d > 8: return
+        for kind, bi, y in body.uses.get(w, ()):
+            if kind != 'stmt': continue
+            rv = y['rv']
+            pl = rv['pl'] if 'pl' in rv else (rv['ops'][0]['pl'] if rv.get('ops') and rv['ops'][0]['k'] in ('copy', 'move') else None)
+            if pl is None or pl['l'] != w: continue
+            pp = [e for e in pl['p'] if e != '*']
+            inner = len(pp) == 2 and isinstance(pp[0], dict) and pp[0].get('dc') in ('Some', 'Ok', 'Continue')
+            if rv['k'] == 'discr' and inner: switch_edges(y['dst']['l'], err_ix)
+            elif rv['k'] == 'use' and not y['dst']['p']:
+                if not pp: wrapped(y['dst']['l'], err_ix, d + 1)
+                elif inner: out.update(failure_edges(body, y['dst']['l'], depth + 1))
+    for kind, bi, x in body.uses.get(local, ()):
+        if kind == 'call':
+            if T.TRY_BRANCH.search(x.name):
+                for k2, b2, y in body.uses.get(x.dst['l'], ()):
+                    if k2 == 'stmt' and y['rv']['k'] == 'discr' and not [e for e in y['rv']['pl']['p'] if e != '*']: switch_edges(y['dst']['l'], 1)
+            elif T.ERR_ADAPTORS.search(x.name): out |= failure_edges(body, x.dst['l'], depth + 1)
+        elif kind == 'stmt':
+            rv = x['rv']
+            if rv['k'] == 'discr' and not [e for e in rv['pl']['p'] if e != '*']: switch_edges(x['dst']['l'], err_index(body, local, 0))
+            elif rv['k'] == 'use' and not x['dst']['p'] and rv['ops'][0]['k'] in ('copy', 'move') and rv['ops'][0]['pl']['l'] == local and not rv['ops'][0]['pl']['p']:
+                if x['dst']['l'] != 0: out |= failure_edges(body, x['dst']['l'], depth + 1)
+            elif rv['k'] == 'ref': out |= failure_edges(body, x['dst']['l'], depth + 1)
+            elif rv['k'] == 'agg' and rv['adt'].split('::')[-1] in ('Some', 'Ok', 'Continue') and len(rv['ops']) == 1 and not x['dst']['p']:
+                wrapped(x['dst']['l'], err_index(body, local, 0), 0)
+    return out
+
+
+def other_failures(body, sources):
+    """Err-exits that can be reached although none of the fallible `sources` (calls) has failed: evaluation may only fail for the reasons listed.
+    Decided by cutting the failure edges of the sources and asking (variant-aware) which Err-exits are still reachable from the entry."""
+    cut = set()
+    for c in sources: cut |= failure_edges(body, c.dst['l'])
+    return sorted(reach_v(body, [0], cut=cut) & body.err_exits())
 
 
 def errflow_bad(body, calls):
@@ -1027,6 +1086,17 @@ def kernel_rules(ctx, short):
            [('state lookup: ' + why, body.site(c.bb)) for c, why in errflow_bad(body, lookups)] +
            [('state lookup: ' + why, cb.site(c.bb)) for cb in closures for c, why in errflow_bad(cb, state_lookups(ctx, cb))] +
            ([] if lookups or hidden else [('no state lookup in the evaluator', None)]))
+    # evaluation fails ONLY when a variable is missing (or the nested evaluation of a part failed): no Err-exit is reachable unless a state lookup
+    # came back empty / an Evaluate::evaluate call returned Err.  Consumers that run closures with lookups inside (weak fallback) count as sources too.
+    sources = list(lookups) + [c for c in body.calls if c.item == 'evaluate' and (c.trait or '').endswith('Evaluate')]
+    hidden_paths = {cb.name for cb, c in hidden}
+    for c in body.calls:
+        for a in c.args:
+            if a['k'] in ('copy', 'move') and not a['pl']['p']:
+                for k2, b2, d in body.defs_of(a['pl']['l']):
+                    if k2 == 'stmt' and d['rv']['k'] == 'agg' and d['rv']['adt'].startswith('closure:') and d['rv']['adt'][8:] in hidden_paths and c not in sources: sources.append(c)
+    decide(ctx, R + '.lookup/%s/only-missing-variable-fails' % short, 'T-ERRFLOW', body,
+           [('evaluation can fail although no variable is missing from the state', body.site(e)) for e in other_failures(body, sources)])
     decide(ctx, R + '.lookup/%s/state' % short, 'T-CARRY', body,
            [('lookup is not in the given state', body.site(c.bb)) for c in lookups if T.access_path(body, c.args[0])[1] != 2])
     # lookups hidden in closures that the normal form could not splice cannot be followed: fail closed (but see weak_kernel)
@@ -1472,6 +1542,9 @@ def oneof_rules(ctx):
             if all((x == ('const', '0f64') and b2 in nr) or variant_payload(x) == 'Constant' for x, b2 in va) and all(x[0] == 'call' and x[1] == 'new' and 'BTreeSet' in x[2] for x in vb): continue
         foreign.append(('an Ok-exit returns something else than an arm\'s result: %s' % T.expr_str(n), body.site(bb)))
     decide(ctx, R + '/only-arm-results', 'T-BRANCHFX', body, foreign)
+    # ... and it fails only when the evaluation of a payload failed
+    decide(ctx, R + '/only-payload-errors', 'T-ERRFLOW', body,
+           [('the dispatcher can fail although no payload evaluation failed', body.site(e)) for e in other_failures(body, E)])
     arith_ops = [b2 for b2, st2 in body.stmts() if st2['rv']['k'] in ('bin', 'un') and st2['rv'].get('ty') == 'f64']
     arith_ops += [c.bb for c in body.calls if T.ARITH_CALL.match(c.name) or T.ASSIGN_CALL.match(c.name)]
     ctx.check(not arith_ops, R + '/no-arithmetic', 'T-BRANCHFX', body.name, 'the dispatcher modifies the value', body.site(arith_ops[0]) if arith_ops else body.site())
@@ -1534,7 +1607,7 @@ def check(ctx):
         cover(ctx, 'C01.cover/' + ty.split('::')[-1], b, ty, exempt=ex)
     b = ctx.F.one('v1::Linear', 'evaluate', trait='Evaluate'); cover(ctx, 'C01.cover/Term', b, 'v1::linear::Term')
     b = ctx.F.one('v1::Polynomial', 'evaluate', trait='Evaluate'); cover(ctx, 'C01.cover/Monomial', b, 'v1::Monomial')
-    ctx.floor('C01.lookup', 9); ctx.floor('C01.fields', 19); ctx.floor('C01.used', 10); ctx.floor('C01.every-term', 15); ctx.floor('C01.oneof', 16); ctx.floor('C01.linear-none', 2); ctx.floor('C01.cover', 11)
+    ctx.floor('C01.lookup', 12); ctx.floor('C01.fields', 19); ctx.floor('C01.used', 10); ctx.floor('C01.every-term', 15); ctx.floor('C01.oneof', 17); ctx.floor('C01.linear-none', 2); ctx.floor('C01.cover', 11)
 
 
 def thorough(ctx):
